@@ -16,6 +16,8 @@ pub mod c12;
 pub mod c13;
 pub mod c14;
 pub mod c15;
+pub mod c16;
+pub mod c17;
 pub mod c20;
 
 pub fn run(ctx: &Ctx) -> i32 {
@@ -35,6 +37,8 @@ pub fn run(ctx: &Ctx) -> i32 {
         "C13" => c13::run(ctx),
         "C14" => c14::run(ctx),
         "C15" => c15::run(ctx),
+        "C16" => c16::run(ctx),
+        "C17" => c17::run(ctx),
         "C20" => c20::run(ctx),
         other => {
             eprintln!("unknown property {}", other);
@@ -60,6 +64,8 @@ pub fn replay(prop: &str, op: &str, case: &Value, acc: &mut Acc) -> bool {
         "C13" => c13::replay(op, case, acc),
         "C14" => c14::replay(op, case, acc),
         "C15" => c15::replay(op, case, acc),
+        "C16" => c16::replay(op, case, acc),
+        "C17" => c17::replay(op, case, acc),
         "C20" => c20::replay(op, case, acc),
         _ => false,
     }
